@@ -1,15 +1,19 @@
-"""C03 - see DESIGN.md section 4.  Bounded relational contract (E3) + proved helper obligations (E1)."""
+"""C03 - hash agrees with equality and is canonical across runs.  Stated AST dataflow obligations (no seed-dependent value
+reaches hash(); the multiset hash sorts first) + bounded invariance checks and PYTHONHASHSEED runs (E3).  Descriptor-level
+hash/eq agreement is proved in C04."""
 import time
 
 from ..core import Report
 from ..e3 import eqhash
+from . import e1_hashflow
 
 
 def run(tier, seed):
     t0 = time.time()
     rep = Report("C03", tier, seed)
     rep.level = "exploration"
+    e1_hashflow.ob_hash_seed_free(rep)
     eqhash.run_c03(rep, tier, seed)
-    rep.rule = "E3 scope of DESIGN Appendix B: structured skeletons x element assignments x roles x stereo decorations x variants; distinct_nontrivial counts distinct base graphs"
-    rep.assumptions = ["bounded: only the enumerated scope is covered; oracle = brute-force bijection search with oracle symmetry groups"]
+    rep.rule = "E3 scope of DESIGN Appendix B x renamings / insertion orders / descriptor re-spellings; sub-processes with PYTHONHASHSEED in {0,1,2,random}; distinct_nontrivial = distinct base graphs"
+    rep.assumptions = ["bounded: only the enumerated scope is covered", "the five AST obligations are syntactic dataflow facts (call graph over-approximated by method name), not solver-discharged VCs"]
     return rep, t0
